@@ -106,6 +106,10 @@ class ReqRun:
             return
         if ev == "peer_close":
             kw = {"s": kw["conn"], "how": kw["how"]}
+            done = self.__dict__.setdefault("_close_logged", set())
+            if kw["s"] in done:
+                return                                    # the full close that follows a half close is not a second event
+            done.add(kw["s"])
         if "s" in kw:
             # sessions are numbered in the order they were established: a TCP connection that the owner dropped before
             # its pair-verify finished never was a session of the request plane (and nothing is logged about it)
@@ -230,25 +234,49 @@ class ReqRun:
         self.loop.call_soon(f)
         self.step(1)
 
-    def respond(self, conn, how="resp", status=200, pad=0, frame=None):
+    def respond(self, conn, how="resp", status=200, pad=0, frame=None, chunked=False):
         """pad: extra body bytes (a body much longer than what follows it); frame: plaintext bytes per encrypted frame
         (small frames let the controller decrypt - and its HTTP layer see - the first piece of a split response)."""
         req = conn.unanswered[0]
         body = A.hap_json({"r": req.rid, "pad": "x" * pad} if pad else {"r": req.rid})
-        raw = H.response(status, body)
+        marks = []
+        if chunked and body:
+            # Transfer-Encoding: chunked in 1..3 chunks; `marks` = offsets in the message where a chunk's data ends, where
+            # its CRLF ends, and right after the final "0\r\n" - the cut points a piecewise delivery is most sensitive to
+            k = self._rng.randrange(1, 4)
+            cs = sorted(self._rng.sample(range(1, len(body)), min(k - 1, len(body) - 1))) if len(body) > 1 else []
+            chunks = [b - a for a, b in zip([0, *cs], [*cs, len(body)])]
+            raw = H.response(status, body, chunked=True, chunks=chunks)
+            pos = raw.index(b"\r\n\r\n") + 4
+            for n in chunks:
+                pos += len(f"{n:x}\r\n") + n
+                marks += [pos, pos + 2]
+                pos += 2
+            marks += [pos + 3]
+        else:
+            raw = H.response(status, body)
         self.log("acc_tx", s=conn.id + 1, kind=how, r=req.rid)
         conn.unanswered.remove(req)
         sizes = None
-        if conn.session and frame:
+        if conn.session and marks and how != "resp":
+            m = min(max(self._rng.choice(marks), 1), len(raw) - 1)           # one frame ends exactly at a chunk boundary
+            sizes = [n for n in (min(m, 1024), m - min(m, 1024), len(raw) - m) if n > 0]
+            sizes = [x for n in sizes for x in ([1024] * (n // 1024) + ([n % 1024] if n % 1024 else []))]
+        elif conn.session and frame:
             sizes = [frame] * (len(raw) // frame) + ([len(raw) % frame] if len(raw) % frame else [])
         wire = conn.session.seal(raw, sizes) if conn.session else raw
         if how == "resp":
             conn.send_raw(wire)
         else:
-            if sizes:
+            if sizes and marks:
+                cut = sizes[0] + 18                       # exactly the frame that ends at the chunk boundary
+                cut = min(max(cut, 1), len(wire) - 1)
+            elif sizes:
                 k = self._rng.randrange(1, len(sizes)) if len(sizes) > 1 else 0      # cut on a frame boundary (+ a few bytes)
                 cut = sum(n + 18 for n in sizes[:k]) + self._rng.choice([0, 0, 1, 5]) if k else self._rng.randrange(1, len(wire))
                 cut = min(max(cut, 1), len(wire) - 1)
+            elif marks and not conn.session and self._rng.random() < 0.8:
+                cut = min(max(self._rng.choice(marks), 1), len(wire) - 1)
             else:
                 cut = self._rng.randrange(1, len(wire))
             conn.send_raw(wire[:cut])
@@ -282,6 +310,17 @@ class ReqRun:
     def peer_close(self, conn, how):
         self.half.pop(conn.id, None)
         if getattr(conn, "paused", False):
+            if how == "fin" and not getattr(conn, "half_closed", False):
+                # the hung accessory shuts down its sending side (FIN) while it still does not read: the controller sees
+                # EOF with its own data unflushed
+                import socket as _socket
+                try:
+                    conn.sock.shutdown(_socket.SHUT_WR)
+                except OSError:
+                    pass
+                conn.half_closed = True
+                self.log("peer_close", conn=conn.id + 1, how="fin")
+                return
             # a hung accessory has unread data: its close is a reset (logged as such)
             conn.close(reset=True)
             return
@@ -345,7 +384,7 @@ def stimulus(r: ReqRun, rng):
         if not c.unanswered and c.id not in r.half and rng.random() < 0.15:
             opts += [("pause", c)] * 2
     for c in paused:
-        opts += [("close", c, "rst")]
+        opts += [("close", c, "rst")] + ([("close", c, "fin")] * 2 if not getattr(c, "half_closed", False) else [])
     for c in live:
         if c.id in r.half:
             opts += [("rest", c)] * 4
@@ -383,11 +422,12 @@ def stimulus(r: ReqRun, rng):
             r.pause(o[1])
         return True
     if o[0] == "resp":
-        r.respond(o[1], "resp", rng.choice([200, 200, 207, 404, 470]))
+        r.respond(o[1], "resp", rng.choice([200, 200, 207, 404, 470]), chunked=rng.random() < 0.2)
         return False
     if o[0] == "half":
         big = rng.random() < 0.3
-        r.respond(o[1], "half", pad=rng.choice([300, 900]) if big else 0, frame=rng.choice([None, 64, 150]))
+        r.respond(o[1], "half", pad=rng.choice([300, 900]) if big else 0, frame=rng.choice([None, 64, 150]),
+                  chunked=rng.random() < 0.3)
         return False
     if o[0] == "rest":
         r.respond_rest(o[1], events_behind=rng.choice([0, 0, 1, 2]))
@@ -434,7 +474,10 @@ def hung_run(rng: random.Random, rid):
         r.pause(first)
         r.issue("PUT", big=True)
         r.settle()
-        if rng.random() < 0.7:
+        if rng.random() < 0.35:
+            r.peer_close(first, "fin")                # EOF from the hung accessory while the big request is unflushed
+            r.settle()
+        elif rng.random() < 0.7:
             r.user_close()
             r.user_open()
         r.advance(31)                      # the hung request times out; the successor finishes its set-up
@@ -563,7 +606,8 @@ def coalesce_run(rng: random.Random, rid, variant: int, limit: int = 1):
                 continue
             big = variant == 3 or rng.random() < 0.5
             r.respond(conn, "half", pad=rng.choice([400, 700, 1500]) if big else 0,
-                      frame=rng.choice([64, 200]) if big or rng.random() < 0.5 else None)
+                      frame=rng.choice([64, 200]) if big or rng.random() < 0.5 else None,
+                      chunked=rng.random() < 0.5)
             r.settle()                                  # the controller has read (and, with small frames, decrypted) the first piece
             r.respond_rest(conn, events_behind=2 if variant == 1 else 1)
             r.settle()
